@@ -43,6 +43,10 @@ type Rec struct {
 
 // Source is the value of the record's source field.
 func (r Rec) Source() string {
+	if r.Kind == "srcmail" {
+		// an e-mail address in the MSGID token: only used with configurations that redact the source field as well (C19)
+		return "carol@example.org"
+	}
 	if r.Src != "" {
 		return r.Src
 	}
@@ -256,6 +260,9 @@ func (r Rec) Expected() (fields, env map[string]string, tm time.Time, ok bool) {
 	fields = map[string]string{
 		"facility": "local0", "level": sevNames[r.Sev], "pid": fmt.Sprint(1000 + r.Conn), "source": r.Source(),
 		"extradata": "-", "log": log,
+	}
+	if r.Kind == "srcmail" {
+		fields["source"] = "REDACTED"
 	}
 	env = map[string]string{"host": r.Host, "app": r.App}
 	if r.Kind != "badtime" {
